@@ -82,9 +82,9 @@ var c11Ops = []string{
 }
 
 type c11Member struct {
-	cl      *harness.Client
-	online  bool
-	subs    map[string]byte // full filter -> qos
+	cl     *harness.Client
+	online bool
+	subs   map[string]byte // full filter -> qos
 }
 
 func c11WireBody(seq []int, report func(rule, class, want, got string), applied *int) func() {
